@@ -55,6 +55,7 @@ SKELETONS = [
   ("empty-and-br-only", R1,
    ["body", "", [["div", "r=r1", [["p", "b e", [["br", ""]]], ["p", "b e", []], ["p", "", [S("A", "b e"), ["br", ""], ["br", ""]]]]]]]),
   ("no-body", R2, None),
+  ("styled-br", [], ["body", "", [["div", "", [["p", "b e", [S("A", ""), ["br", "c=red fs=italic bg=blue"], S("B", "")]]]]]]),
   ("region-show-background-animated", [["r1", "b e bg=red asb=whenActive"]], ["body", "", [["div", "r=r1", [["p", "b e", [S("A", "")]]]]]]),
   ("deep-chain", [["r1", ""]],
    ["body", "b e", [["div", "b e", [["div", "b e r=r1", [["p", "b e", [["span", "b e", [["span", "b e", [T("A")]]]]]]]]]]]]),
